@@ -29,7 +29,7 @@ ASSUMPTIONS = [
 ]
 REQUIRED_REACH_THOROUGH = {"repo_tests.contract.baseline.post": 10, "repo_tests.contract.reporting.post": 10}
 REQUIRED_REACH = {"contract.baseline.post": 200, "contract.reporting.post": 200, "outcome.dedicated_error": 5,
-                  "clause.leak": 300, "clause.gap_warning_owed": 20}
+                  "clause.leak": 300, "clause.gap_warning_owed": 20, "clause.gap_owed_on_both_sides": 100}
 
 VIOL = []
 
@@ -294,6 +294,14 @@ def run_case(spec):
         other = None
         if md is None and rng.random() < 0.5:      # explicit opposite limit is only allowed with max_days=None
             other = cut + pd.Timedelta(days=float(rng.uniform(1, 400))) * (-1 if base else 1)
+        if it % 16 == 5:
+            # both limits explicit and the series strictly inside them: a gap is owed on BOTH sides (each warning on its own account)
+            md = None
+            lo_, hi_ = data.index[0], data.index[-1]
+            before = (lo_ - pd.Timedelta(days=float(rng.uniform(0.5, 300)))).tz_convert("UTC").floor("s").tz_convert(data.index.tz)
+            after = (hi_ + pd.Timedelta(days=float(rng.uniform(0.5, 300)))).tz_convert("UTC").floor("s").tz_convert(data.index.tz)
+            cut, other, ccls = (after, before, "after-data") if base else (before, after, "before-data")
+            I.reach("clause.gap_owed_on_both_sides")
         del VIOL[:]
         outcome = "ok"
         call = dict(fn="get_baseline_data" if base else "get_reporting_data", series=skind, form=form, rows=len(data),
